@@ -202,6 +202,16 @@ def generate(req):
         c.execute("create table t_wr6(Name TEXT, Region TEXT, Qty, PRIMARY KEY (region, NAME)) WITHOUT ROWID")
         c.execute("create index ix_wr6_q on t_wr6(qty, name)")
         c.executemany("insert or ignore into t_wr6 values(?,?,?)", [("n%d" % (i % 17), "r%d" % (i % 5), g.any_value()) for i in range(m)])
+        # the same column twice in the key under two collations (stored as a, a, n, v), and a key whose later
+        # column has the default collation after a NOCASE one, with rows that differ by case in that later column only
+        c.execute("create table t_wr7(a TEXT, n, v, PRIMARY KEY(a COLLATE NOCASE, a)) WITHOUT ROWID")
+        c.execute("create index ix_wr7_n on t_wr7(n)")
+        c.executemany("insert or ignore into t_wr7 values(?,?,?)",
+                      [(r.choice(["k", "K", "kk", "Kk", "kK", "z", "Z "]) + (str(i % 9) if i % 3 else ""), r.randint(0, 7), "v%d" % i) for i in range(m)])
+        c.execute("create table t_wr8(a TEXT COLLATE NOCASE, b TEXT, n, v, PRIMARY KEY(a, b)) WITHOUT ROWID")
+        c.execute("create index ix_wr8_n on t_wr8(n)")
+        c.executemany("insert or ignore into t_wr8 values(?,?,?,?)",
+                      [(r.choice(["k", "K", "m"]), r.choice(["b", "B", "bb", "bB", "Bb", "c"]) + (str(i % 5) if i % 4 == 0 else ""), r.randint(0, 7), "w%d" % i) for i in range(m)])
         c.execute("create table t_wr3(x INTEGER, y INTEGER, z TEXT, w, PRIMARY KEY(z, x, y)) WITHOUT ROWID")
         c.execute("create index ix_wr3_wy on t_wr3(w, y)")
         c.execute("create index ix_wr3_znc on t_wr3(z COLLATE NOCASE)")
